@@ -848,3 +848,40 @@ Print Assumptions C10_ws_full_chain.
 Print Assumptions C10_ws_hypotheses_decidable.
 Print Assumptions C10_ws_nonvacuous.
 Print Assumptions C10_ws_cycle_guard.
+
+(* a typed operand before the dot (WsTree.typed_entity: the name of another indexed class / module; a
+   variable, parameter or own / inherited field whose declared type is native, an indexed class, `refto`
+   one, or `listof`): the answer is the all-declarations look-up on the chain of the operand's class,
+   to which C10_ws_entity_chain_refines / C10_ws_member apply.  PARTIAL: that typed_entity is
+   Scoping.static_class of the one-element prefix is tied to the code by the differential run only. *)
+Theorem C10_ws_typed_member_case :
+  forall ws a stem t p i enc pi q up full lft,
+    distinct_stems ws = true -> nth_error ws a = Some (stem, t) -> flat_methods t = true ->
+    full_chain ws a t (descend p t) = Ans full -> path_up p t = (S i, enc) :: (pi, q) :: up ->
+    is_dot q = true -> first_child q = Some lft -> own_entity t lft = None ->
+    wdefinition ws a p =
+    match typed_entity ws a t (descend p t) lft with
+    | Outside => Outside
+    | Ans None => Ans []
+    | Ans (Some en) =>
+        match entity_chain ws a full en with
+        | Outside => Outside
+        | Ans None => Ans []
+        | Ans (Some ch) => Ans (wdef_all ws ch (get_id enc p))
+        end
+    end.
+Proof. exact wdefinition_typed_member_case. Qed.
+
+(* non-vacuity: a fourth file  aUser.god  class aUser / proc Go(q : aChild) / q.fc = 1 / aLib.cLib / endproc *)
+Example C10_ws_typed_nonvacuous :
+  ws_ok wsx2 /\ ws_acyclic wsx2 /\ distinct_stems wsx2 = true /\
+  wdefinition wsx2 3 (mkPos 2 3) = Ans [(wx_aChild, wrg 2 0 2 2, wrg 2 0 2 9)] /\       (* q.fc, q : aChild *)
+  wdefinition wsx2 3 (mkPos 3 6) = Ans [(wx_aLib, wrg 1 6 1 10, wrg 1 0 1 14)] /\       (* aLib.cLib *)
+  definition_member (absws wsx2) wx_aUser (Some [71;111]) wx_aChild [102;99] = [(wx_aChild, 1)].
+Proof.
+  destruct wsx2_facts as (H1 & H2 & H3 & H4 & _ & H6 & H7 & _).
+  split; [apply ws_okb_ok; exact H1|]. split; [apply ws_acyclicb_ok; exact H2|]. repeat split; assumption.
+Qed.
+
+Print Assumptions C10_ws_typed_member_case.
+Print Assumptions C10_ws_typed_nonvacuous.
